@@ -198,20 +198,20 @@ class Tables:
                 "confidence_region_check_dominates": self.check_dominates}
 
 
-def sym_regions(ctx, algo, N, m, rtype, spheres=True):
+def sym_regions(ctx, algo, N, m, rtype, spheres=True, tag=""):
     """replace the displayed regions of the real design space by symbolic ones (real region classes)"""
     import vopy.confidence_region as cr
     regs = []
     for i in range(N):
         if rtype == "hyperrectangle":
-            lo, up = ctx.reals(f"lo{i}", m), ctx.reals(f"up{i}", m)
+            lo, up = ctx.reals(f"{tag}lo{i}", m), ctx.reals(f"{tag}up{i}", m)
             ctx.assume(lo < up)  # non-empty interior (every displayed region has positive width)
             r = cr.RectangularConfidenceRegion.__new__(cr.RectangularConfidenceRegion)
             r.intersect_iteratively = False
             r.lower, r.upper = lo, up
         else:
-            c = ctx.reals(f"c{i}", m)
-            a = ctx.real(f"rad{i}")
+            c = ctx.reals(f"{tag}c{i}", m)
+            a = ctx.real(f"{tag}rad{i}")
             ctx.assume(a > 0)
             r = cr.EllipsoidalConfidenceRegion.__new__(cr.EllipsoidalConfidenceRegion)
             r.center, r.alpha = c, a
